@@ -90,21 +90,24 @@ func versSem(ops []string, c []int) bool {
 	return !excluded && (eqHit || inside)
 }
 
-func ascending(c12, c23 int, k int) bool {
+func ascending(c12, c23, c34 int, k int) bool {
 	if k >= 2 && c12 >= 0 {
 		return false
 	}
 	if k >= 3 && c23 >= 0 {
 		return false
 	}
+	if k >= 4 && c34 >= 0 {
+		return false
+	}
 	return true
 }
 
-// c04Vers: ops is a space separated comparator list (k = 1..3 entries), v1..vk the versions.
-func c04Vers[V univers.Version[V], VR univers.VersionRange[V]](e univers.Ecosystem[V, VR], scheme, ops, v1, v2, v3, probe string) {
+// c04Vers: ops is a space separated comparator list (k = 1..4 entries), v1..vk the versions.
+func c04Vers[V univers.Version[V], VR univers.VersionRange[V]](e univers.Ecosystem[V, VR], scheme, ops, v1, v2, v3, v4, probe string) {
 	ol := strings.Split(ops, " ")
 	k := len(ol)
-	vs := []string{v1, v2, v3}[:k]
+	vs := []string{v1, v2, v3, v4}[:k]
 	var pv []V
 	for _, s := range vs {
 		p, err := e.NewVersion(s)
@@ -114,14 +117,17 @@ func c04Vers[V univers.Version[V], VR univers.VersionRange[V]](e univers.Ecosyst
 	pp, ep := e.NewVersion(probe)
 	vv.Assume(ep == nil)
 	vv.Reached()
-	c12, c23 := -1, -1
+	c12, c23, c34 := -1, -1, -1
 	if k >= 2 {
 		c12 = pv[0].Compare(pv[1])
 	}
 	if k >= 3 {
 		c23 = pv[1].Compare(pv[2])
 	}
-	vv.Assume(ascending(c12, c23, k))
+	if k >= 4 {
+		c34 = pv[2].Compare(pv[3])
+	}
+	vv.Assume(ascending(c12, c23, c34, k))
 	text := "vers:" + scheme + "/"
 	for i := range vs {
 		if i > 0 {
@@ -134,37 +140,36 @@ func c04Vers[V univers.Version[V], VR univers.VersionRange[V]](e univers.Ecosyst
 		c[i] = sign(pp.Compare(pv[i]))
 	}
 	vv.Assume(!vv.Known("KF-C04-grouping-heuristics", c04BadGrouping(ol)))
-	vv.Assume(!vv.Known("KF-C02-x-in-bound", c02NpmX(e.Name(), v1+v2+v3)))
+	vv.Assume(!vv.Known("KF-C02-x-in-bound", c02NpmX(e.Name(), v1+v2+v3+v4)))
 	got, err := vers.Contains(text, probe)
 	vv.Assert(err == nil, "C04: well-formed VERS range with valid versions is rejected")
 	vv.Assume(err == nil)
 	vv.Assert(got == versSem(ol, c), "C04: vers.Contains differs from the union-of-intervals denotation")
 }
 
-// c04BadGrouping: comparator shapes outside the three cases the grouping heuristics handle:
-// bound comparators (ignoring = and !=) other than: at most one lower and one upper in total.
-// (inputs only)
+// c04BadGrouping: the bound comparators of the range (ignoring = and !=) are not one of the shapes
+// the grouping code evaluates as VERS says: no bound, a single bound, or one or more complete
+// lower/upper pairs in that order (L U, L U L U, ...). A leading upper bound before a lower one
+// and a trailing unpaired lower bound after a pair are the mis-evaluated shapes. (inputs only)
 func c04BadGrouping(ops []string) bool {
-	lo, up := 0, 0
+	var b []string
 	for _, op := range ops {
-		if isLower(op) {
-			lo++
-		}
-		if isUpper(op) {
-			up++
+		if isLower(op) || isUpper(op) {
+			b = append(b, op)
 		}
 	}
-	return lo+up > 2 || (lo+up == 2 && lo != up) || (lo == 1 && up == 1 && firstBoundIsLowerAfterUpper(ops))
-}
-
-func firstBoundIsLowerAfterUpper(ops []string) bool {
-	// "<a|>b" (upper first, then lower) denotes two half-lines, not one interval
-	for _, op := range ops {
-		if isUpper(op) {
+	if len(b) <= 1 {
+		return false
+	}
+	if len(b)%2 != 0 {
+		return true
+	}
+	for i, op := range b {
+		if i%2 == 0 && !isLower(op) {
 			return true
 		}
-		if isLower(op) {
-			return false
+		if i%2 == 1 && !isUpper(op) {
+			return true
 		}
 	}
 	return false
